@@ -105,6 +105,12 @@ func runC03(w *W) {
 				try(func() { o = d.S.NextDay(-n).GetLunar().Next(n) })
 				routes[fmt.Sprintf("object of the day %d days away .Next(%d)", -n, n)] = o
 			}
+			{
+				// an object that was asked everything else first (visiting order rotating with the day)
+				o := d.S.GetLunar()
+				askAllLunar(o, d.J)
+				routes["directly built object after every other accessor was called on it"] = o
+			}
 			for name, o := range routes {
 				if o == nil || o.GetSolar().ToYmdHms() != d.S.ToYmdHms() {
 					continue
